@@ -46,6 +46,10 @@ type ProcessorNode struct {
 	swapMu  sync.Mutex
 	pending *pendingSwap
 	wakeCh  chan struct{}
+	// stopped is set once Run has returned: from then on no swap can be
+	// applied anymore, so Reconfigure refuses instead of staging a request
+	// nobody would ever answer.
+	stopped bool
 }
 
 // pendingSwap is a staged live-reconfigure request. done carries the outcome back
@@ -72,6 +76,11 @@ func (n *ProcessorNode) ID() string {
 }
 
 func (n *ProcessorNode) Run(ctx context.Context) error {
+	// Whatever way Run ends, answer a reconfigure request that was staged but
+	// not applied: its caller may not be cancellable (provisioning applies in
+	// place with a context detached from the request) and would wait forever.
+	defer n.rejectPendingSwap()
+
 	_, cleanup, err := n.base.Trigger(ctx, n.logger, nil)
 	if err != nil {
 		return err
@@ -258,6 +267,10 @@ func (n *ProcessorNode) Reconfigure(ctx context.Context, newProcessor Processor)
 	wake := n.wake()
 
 	n.swapMu.Lock()
+	if n.stopped {
+		n.swapMu.Unlock()
+		return errReconfigureNodeStopped
+	}
 	if n.pending != nil {
 		n.swapMu.Unlock()
 		return cerrors.New("a processor reconfigure is already in progress")
@@ -287,6 +300,22 @@ func (n *ProcessorNode) Reconfigure(ctx context.Context, newProcessor Processor)
 		}
 		n.swapMu.Unlock()
 		return ctx.Err()
+	}
+}
+
+var errReconfigureNodeStopped = cerrors.New("processor node stopped, the live reconfigure was not applied")
+
+// rejectPendingSwap marks the node as stopped and fails a staged Reconfigure
+// request that Run will no longer get to. The new processor was never opened,
+// so there is nothing to tear down.
+func (n *ProcessorNode) rejectPendingSwap() {
+	n.swapMu.Lock()
+	n.stopped = true
+	p := n.pending
+	n.pending = nil
+	n.swapMu.Unlock()
+	if p != nil {
+		p.done <- errReconfigureNodeStopped
 	}
 }
 
